@@ -23,8 +23,6 @@ def admit(it, info):
     for v, vi in zip(it.variants, info["variants"]):
         if vi["default"] and not vi["disabled"] and any(m.kind in ("ser", "tos") for m in v.metas):
             return False
-        if vi["default"] and vi["disabled"]:
-            return False
     return True
 
 
@@ -81,6 +79,11 @@ def regression():
         Item("E", [Variant("Ab", "unit", [], [aci(True, explicit=False)]), Variant("Cd", "unit", [], [aci(False)])], metas=[EM("aci")]),
         Item("E", []),
         Item("E", [Variant("Only", "named", [Field("String", "s")], [DEFAULT])]),
+        # a DISABLED default variant is neither produced nor used as the catch-all
+        Item("E", [Variant("Red", "unit"), Variant("Other", "tuple", [Field("String")], [DISABLED, DEFAULT]), Variant("Blue", "unit")]),
+        Item("E", [Variant("Other", "named", [Field("String", "rest")], [DEFAULT, ser("o"), DISABLED]), Variant("Red", "unit")],
+             metas=[EM("pety", "PErr"), EM("pefn", "perr_a")]),
+        Item("E", [Variant("Off", "tuple", [Field("String")], [DEFAULT, DISABLED]), Variant("Real", "tuple", [Field("String")], [DEFAULT]), Variant("Red", "unit")]),
     ]
 
 
